@@ -213,6 +213,19 @@ func main() {
 	if err := os.WriteFile(filepath.Join(dir, "zz_verif_export.go"), []byte(exportSrc(pkgName, pkg)), 0o644); err != nil {
 		die("%v", err)
 	}
+	// mocks copied beside the sources are embedded so that the child needs no path
+	if fi, err := os.Stat(filepath.Join(dir, "verifmocks")); err == nil && fi.IsDir() {
+		src := "package " + pkgName + "\n\nimport \"embed\"\n\n//go:embed verifmocks/*.json\nvar verifMockFS embed.FS\n\n" +
+			"// VerifMocks returns the repository's mock documents.\nfunc VerifMocks() map[string][]byte {\n\tout := map[string][]byte{}\n\tents, _ := verifMockFS.ReadDir(\"verifmocks\")\n\tfor _, e := range ents {\n\t\tb, _ := verifMockFS.ReadFile(\"verifmocks/\" + e.Name())\n\t\tout[e.Name()] = b\n\t}\n\treturn out\n}\n"
+		if err := os.WriteFile(filepath.Join(dir, "zz_verif_mocks.go"), []byte(src), 0o644); err != nil {
+			die("%v", err)
+		}
+	} else {
+		src := "package " + pkgName + "\n\n// VerifMocks returns the repository's mock documents (none were found).\nfunc VerifMocks() map[string][]byte { return nil }\n"
+		if err := os.WriteFile(filepath.Join(dir, "zz_verif_mocks.go"), []byte(src), 0o644); err != nil {
+			die("%v", err)
+		}
+	}
 	fmt.Printf("{\"sites\":%d,\"map_ranges\":%d,\"files\":%d}\n", len(siteTable), mapRanges, len(files))
 }
 
